@@ -3163,6 +3163,12 @@ class Mailbox:
         #
         mbox_match = "^" + re.escape(mbox_match) + "$"
         mbox_match = mbox_match.replace(r"\*", r".*").replace(r"%", r"[^\/]*")
+
+        # The name INBOX is case-insensitive (and we store it as `inbox`): a
+        # pattern that denotes it in some case denotes it in every case.
+        #
+        if re.match(mbox_match, "inbox", re.IGNORECASE):
+            mbox_match += "|^(?i:inbox)$"
         return mbox_match
 
     ####################################################################
